@@ -1,12 +1,12 @@
 """C04 - graded Euler characteristic of Kh is the Jones polynomial (agreement of the degree conventions only)."""
-import e8_formulas, e7_tables
+import e8_formulas, e7_tables, e23_bigrade
 
 LEVEL = 'other'
 EXPLANATION = ('The identity chi_q(Kh) = Jones can only hold if the two independent encodings of the grading conventions agree: (F2) the '
                'global shift (-n_neg, n_pos - 2 n_neg) of KhComplex::deg_shift_for against the prefactor (-1)^{n_neg} q^{n_pos - 2 n_neg} of '
                'jones_polynomial, (F3) the generator bidegree h0 + |s|, q0 + sum deg(label) + #circles + |s| with deg(1) = 0, deg(X) = -2 '
                'against the state-sum weight (-q)^{|s|} (q + q^-1)^{#circles}. Both sides are read from the MIR as affine forms / tables '
-               'and compared; any disagreement breaks the identity on every diagram with a crossing. NOT decided: the identity itself, '
+               'and compared; any disagreement breaks the identity on every diagram with a crossing. (E23 G3-G5) the bigraded complex the ranks are read from contains every generator: its support is h_range x q_range over all generators of all summands, range_of is (min, max), and x lands in piece (i, j) iff q_deg(x) = j. (E7 T8/T9) the orientation sweep shares one visited set and tries every crossing as a start. NOT decided: the identity itself, '
                'isotopy invariance, q -> q^-1 under mirroring.')
 TRUSTED = ['rustc MIR', 'atoms are identified by the accessor they come from (signed_crossing_nums, weight, label length)']
 
@@ -17,3 +17,6 @@ def run(ctx, rep):
     e8_formulas.check_shift(facts, rep)
     e8_formulas.check_gen_degrees(facts, rep)
     e7_tables.check_shared_visited(facts, rep)
+    e7_tables.check_exhaustive_sweep(facts, rep)
+    rep.rule('E23', e23_bigrade.__doc__.strip().split('\n')[0])
+    e23_bigrade.run(facts, rep, parts=('G3', 'G4', 'G5'))
